@@ -12,6 +12,7 @@ import random
 from fractions import Fraction as F
 
 import numpy as np
+from pyverif.tv import tv_to_np
 import z3
 
 from .. import families, tv, tvspec, decide, runner, findings, symx, libmodels
@@ -74,8 +75,8 @@ def jac_job(job):
         out['tally'] = tally.as_dict()
         return out
     out['src'], out['jsrc'] = c_run.src, c_jac.src
-    ny = int(np.size(c_run.args[1]))
-    if int(np.size(c_jac.args[1])) != ny or not np.allclose(np.asarray(c_run.args[1], float), np.asarray(c_jac.args[1], float)):
+    ny = int(np.asarray(tv_to_np(c_run.args[1])).size)
+    if int(np.asarray(tv_to_np(c_jac.args[1])).size) != ny or not np.allclose(np.asarray(c_run.args[1], float), np.asarray(c_jac.args[1], float)):
         out['violations'].append(dict(kind='state-order', what='run function and Jacobian function disagree on the state '
                                       f'vector: {np.asarray(c_run.args[1]).tolist()} vs {np.asarray(c_jac.args[1]).tolist()}'))
         out['tally'] = tally.as_dict()
